@@ -26,6 +26,12 @@ def run(ctx):
                 "x IgnoreRaw with 3 soft-break modes, + IgnoreRaw=false when the tree has no raw HTML node; outputs de-duplicated; "
                 "non-trivial = output carries an attribute; distinct by output bytes")
     ctx.assumptions += ["Html.tla covers the tokenizer states reachable from the data state for tags, comments, declarations; RCDATA/RAWTEXT/script states are not needed because the fixed vocabulary has no such element"]
+    # model level: the HTML that the composed model (Full.tla) assigns to every generated document without raw HTML passes the
+    # same tokenizer and vocabulary checks - the mapping's escaping discipline is sufficient (C10 binds the code to the mapping)
+    from checks import fullfam
+    sets = ["fullA", "fullB", "fullC"] + (["fullD"] if ctx.tier == "thorough" else [])
+    ctx.tlc_many([dict(module="Full", cfg_text=fullfam.cfg(st, 2 if ctx.tier == "quick" else 3).replace("CONSTRAINT Emit\n", "INVARIANT WellFormedHtmlLemma\n"),
+                       name="Full_wellformed_%s" % st, workers=8, timeout=6000) for st in sets], parallel=3)
     tracefam.run(ctx, "Html", gen, regen, CONSTS, nsh=16)
 
 
